@@ -86,7 +86,7 @@ func TestCheck(t *testing.T) {
 		}
 		r := vh.NewRand(env.Seed)
 		for _, e := range engines() {
-			n := env.N(e.quick, 10)
+			n := env.N(e.quick, 8)
 			er := r.Fork()
 			for i := 0; i < n; i++ {
 				cases = append(cases, e.gen(er.Fork(), env))
